@@ -1,16 +1,23 @@
 /-!
 # Core/Emit — model of the diagnostic filter of `pyanalyze.node_visitor.BaseNodeVisitor`
 
-Faithful layer, one Lean branch per Python branch, defects included:
+Faithful layer, one Lean branch per Python branch (line numbers: /repo at b494820, i.e. after the
+repairs 0cba813 and ba62f49):
 
-* `showError`            — `BaseNodeVisitor.show_error` (node_visitor.py:558‥735): capture by
-                           `catch_errors` (:594), enablement (:607, `NameCheckVisitor.is_enabled`
-                           name_check_visitor.py:5843), file-level ignore (:610), duplicate filter
-                           (:613‥617), per-line ignore comments (:653‥669, *including* the
-                           `lines[lineno - 2]` wrap-around for `lineno == 1`), `save` (:731).
-* `fileLevelIdx`         — `has_file_level_ignore` (:240‥257).
-* `unusedRaws`/`bareRaws`— `get_unused_ignores` (:259), `show_errors_for_unused_ignores` (:267),
-                           `show_errors_for_bare_ignores` (:285).
+* `showError`            — `BaseNodeVisitor.show_error` (node_visitor.py:564‥741): capture by
+                           `catch_errors` (:596), enablement (:613, `NameCheckVisitor.is_enabled`),
+                           file-level ignore (:616), duplicate filter (:619‥623), per-line ignore
+                           comments (:659‥677; `prev_line` is `""` for `lineno < 2` since 0cba813),
+                           `save` (:716).
+* `pyLines`              — `_lines` (:236): `re.split(r"\r\n|\r|\n", contents)` minus a trailing
+                           empty piece (since ba62f49).
+* `fileLevelIdx`         — `has_file_level_ignore` (:246‥263).
+* `unusedRaws`/`bareRaws`— `get_unused_ignores` (:265), `show_errors_for_unused_ignores` (:273),
+                           `show_errors_for_bare_ignores` (:290).
+* `oldShowError`/`oldRun`/`oldCheck`/`oldPyLines` — the two functions as they were *before* the
+                           repairs (`lines[lineno - 2]` wrapping to the last line for `lineno == 1`;
+                           `contents.splitlines()`). Not the model of the code under check: they
+                           feed the `old_…` regression theorems of Props/C11.lean only.
 * `check`                — the tail of `NameCheckVisitor.check` (name_check_visitor.py:1328‥1334):
                            the visitor's stream of `show_error` calls, then the two end-of-file passes.
 * `isErrorCodeEnabled`   — `Options.is_error_code_enabled` (options.py:302) over
@@ -21,7 +28,7 @@ calls are the input `List Raw` ("raw stream").  Not modelled either: message/con
 `_changes_for_fixer` / `add_ignores` (C16), `fail_after_first`, a non-default `ignore_comment`
 argument (never passed inside pyanalyze). The file is given as its list of lines `_lines()` without
 the trailing newline it re-appends (none of the tests below depends on it); `pyLines` models the
-`str.splitlines()` call that produces the list from the source text.
+split that produces the list from the source text.
 
 No imports: core-only so the driver starts fast.
 -/
@@ -89,14 +96,21 @@ def splitBy (brk : Char → Bool) : List Char → Line → Bool → List Line
     else if brk c then cur.reverse :: splitBy brk cs [] (c == '\r')
     else splitBy brk cs (c :: cur) false
 
-/-- The line boundaries of `str.splitlines()`. -/
+/-- The characters the regex `\r\n|\r|\n` of `_lines()` matches (the `\r\n` alternative is the
+`afterCR` state of `splitBy`). -/
+def isReBreak (c : Char) : Bool := c == '\r' || c == '\n'
+
+/-- `_lines()` (node_visitor.py:236‥243): `re.split(r"\r\n|\r|\n", self.contents)`, a trailing empty
+piece dropped (the `"\n"` re-appended to every line is dropped here, see the header). -/
+def pyLines (src : List Char) : List Line := splitBy isReBreak src [] false
+
+/-- The line boundaries of `str.splitlines()` (what `_lines()` used before ba62f49). -/
 def isPyBreak (c : Char) : Bool :=
   c == '\n' || c == '\r' || c == '\x0b' || c == '\x0c' ||
   [0x1c, 0x1d, 0x1e, 0x85, 0x2028, 0x2029].contains c.toNat
 
-/-- `_lines()` (node_visitor.py:234‥236): `self.contents.splitlines()` (the `"\n"` it re-appends to
-every line is dropped here, see the header). -/
-def pyLines (src : List Char) : List Line := splitBy isPyBreak src [] false
+/-- `_lines()` before ba62f49: `self.contents.splitlines()`. Regression documentation only. -/
+def oldPyLines (src : List Char) : List Line := splitBy isPyBreak src [] false
 
 /-- Python list indexing with an `int` that may be negative; `none` = IndexError. -/
 def pyGet (ls : List Line) (k : Int) : Option Line :=
@@ -142,7 +156,7 @@ def Raw.line (r : Raw) : Option Nat := r.pos.map (·.1)
 
 structure St where
   seen : List Key := []      -- seen_errors
-  used : List Int := []      -- used_ignores (a set; -1 can get in through the wrap-around)
+  used : List Int := []      -- used_ignores (a set of ints)
   fails : List Raw := []     -- all_failures
   deriving DecidableEq, Repr, Inhabited
 
@@ -154,28 +168,56 @@ def disabledBy (en : String → Bool) (r : Raw) : Bool :=
 
 /-- `show_error`; `none` = an IndexError escapes (line number beyond the file). -/
 def showError (en : String → Bool) (lines : List Line) (st : St) (r : Raw) : Option St :=
-  if r.captured then some st                                   -- :594 appended to caught_errors
-  else if disabledBy en r then some st                         -- :607
-  else match fileLevelIdx r.code 0 lines with                  -- :610
+  if r.captured then some st                                   -- :596 appended to caught_errors
+  else if disabledBy en r then some st                         -- :613
+  else match fileLevelIdx r.code 0 lines with                  -- :616
     | some i => some { st with used := (i : Int) :: st.used }
     | none =>
-      if st.seen.contains r.key then some st                   -- :614
+      if st.seen.contains r.key then some st                   -- :620
       else
-        let st := { st with seen := r.key :: st.seen }         -- :617
+        let st := { st with seen := r.key :: st.seen }         -- :623
         let emit : Option St := some (if r.save then { st with fails := st.fails ++ [r] } else st)
-        match (if r.obey then r.pos else none) with            -- :653 obey_ignore and lineno is not None
+        match (if r.obey then r.pos else none) with            -- :659 obey_ignore and lineno is not None
         | none => emit
         | some (ln, _) =>
-          match pyGet lines ((ln : Int) - 1) with              -- :654
+          match pyGet lines ((ln : Int) - 1) with              -- :660
           | none => none
           | some thisLine =>
             if trailingMatch thisLine r.code then
-              some { st with used := ((ln : Int) - 1) :: st.used }      -- :660
-            else match pyGet lines ((ln : Int) - 2) with       -- :662 (wraps for ln = 1)
+              some { st with used := ((ln : Int) - 1) :: st.used }      -- :666
+            else match (if 2 ≤ ln then pyGet lines ((ln : Int) - 2) else some []) with  -- :670
               | none => none
               | some prev =>
                 if ownLineMatch prev r.code then
-                  some { st with used := ((ln : Int) - 2) :: st.used }  -- :668
+                  some { st with used := ((ln : Int) - 2) :: st.used }  -- :676
+                else emit
+
+/-- `show_error` before 0cba813: `prev_line = lines[lineno - 2].strip()` without the `lineno >= 2`
+guard, so that for `lineno == 1` the *last* line of the file is taken for the line above.
+Regression documentation only. -/
+def oldShowError (en : String → Bool) (lines : List Line) (st : St) (r : Raw) : Option St :=
+  if r.captured then some st
+  else if disabledBy en r then some st
+  else match fileLevelIdx r.code 0 lines with
+    | some i => some { st with used := (i : Int) :: st.used }
+    | none =>
+      if st.seen.contains r.key then some st
+      else
+        let st := { st with seen := r.key :: st.seen }
+        let emit : Option St := some (if r.save then { st with fails := st.fails ++ [r] } else st)
+        match (if r.obey then r.pos else none) with
+        | none => emit
+        | some (ln, _) =>
+          match pyGet lines ((ln : Int) - 1) with
+          | none => none
+          | some thisLine =>
+            if trailingMatch thisLine r.code then
+              some { st with used := ((ln : Int) - 1) :: st.used }
+            else match pyGet lines ((ln : Int) - 2) with       -- wraps for ln = 1
+              | none => none
+              | some prev =>
+                if ownLineMatch prev r.code then
+                  some { st with used := ((ln : Int) - 2) :: st.used }
                 else emit
 
 /-- The visitor's calls in order. -/
@@ -222,6 +264,26 @@ def check (en : String → Bool) (lines : List Line) (raw : List Raw) : Option S
       match fileLevelIdx none 0 lines with
       | some i => some { st with used := (i : Int) :: st.used }
       | none => run en lines st (bareRaws lines)
+
+/-- `run` over `oldShowError`. Regression documentation only. -/
+def oldRun (en : String → Bool) (lines : List Line) : St → List Raw → Option St
+  | st, [] => some st
+  | st, r :: rs =>
+    match oldShowError en lines st r with
+    | none => none
+    | some st' => oldRun en lines st' rs
+
+/-- `check` over `oldShowError`. Regression documentation only. -/
+def oldCheck (en : String → Bool) (lines : List Line) (raw : List Raw) : Option St :=
+  match oldRun en lines {} raw with
+  | none => none
+  | some st =>
+    match oldRun en lines st (unusedRaws lines st.used) with
+    | none => none
+    | some st =>
+      match fileLevelIdx none 0 lines with
+      | some i => some { st with used := (i : Int) :: st.used }
+      | none => oldRun en lines st (bareRaws lines)
 
 /-! ## Enablement through options (options.py) -/
 
